@@ -106,7 +106,7 @@ def need_driven(col, facts, name, entries):
 
 def check_panics(res, facts):
     col = Collector(res, facts)
-    adsr_entries(col, facts)
+    need_driven(col, facts, 'adsr', adsr_entries)
     lfo_entries(col, facts)
     glide_entries(col, facts)
     need_driven(col, facts, 'quantizer', quant_entries)
@@ -126,35 +126,44 @@ def check_midi_panics(res, facts):
     length classes, pre-states restricted to the class invariant, which is re-established on every post-state)"""
     col = Collector(res, facts)
     with panic_policy('judge'):
-        midi_entries(col, facts)
+        need_driven(col, facts, 'midi', midi_entries)
     res.floor('midi_entry_partitions', col.entries, 100)
 
 
-def adsr_entries(col, facts):
+def adsr_entries(col, facts, strong=False):
     dds = D.Dds(facts)
+    dds.finite_inputs = True    # "envelope times and sustain levels of any finite value"
     dds.need_levels = False
     total, index = D.pa_instantiation(facts, D.ADSR)
     mask = (1 << total) - 1
+    inc_max = 2 ** 32 - 1 - mask
 
     def inv(o, post):
         pa = post.get('phase_accumulator')
         ok1, r1 = in_range(o.ctx, pa.get('accumulator').term, 0, mask)
-        return [(ok1, 'accumulator <= mask: %s' % r1)]
+        out = [(ok1, 'accumulator <= mask: %s' % r1)]
+        if strong:
+            # optional (assumed only when needed): the stored increment leaves room for the unchecked addition.  The pinned
+            # code reprograms the increment on every tick and needs no such invariant; code that keeps it across ticks does.
+            inc = pa.get('increment').term
+            out.append((le_const(o.ctx, inc, inc_max) and o.ctx.rng(inc)[0] >= 0, 'stored increment <= 2^32-1-mask: %r' % (inc,)))
+        return out
+    kw = dict(inc_range=(0, inc_max)) if strong else {}
     it = dds.interp()
     st = State()
-    col.run('Adsr::new', it, st, D.ADSR + '::new', None, [float_sym(st, 'fs', FS_MIN, FS_MAX)])
+    col.run('Adsr::new', it, st, D.ADSR + '::new', None, [float_sym(st, 'fs', FS_MIN, FS_MAX)], post_inv=(lambda o, post: inv(o, post)) if strong else None)
     for state in D.STATES:
         for meth in ('tick', 'gate_on', 'gate_off', 'value'):
             it = dds.interp()
             st = State()
-            a = dds.make_adsr(it, st, state, total, index, rolled=None)
+            a = dds.make_adsr(it, st, state, total, index, rolled=None, **kw)
             col.run('Adsr::%s|%s' % (meth, state), it, st, D.ADSR + '::' + meth, a, [], post_inv=inv)
     for vname in ('Attack', 'Decay', 'Sustain', 'Release'):
         it = dds.interp()
         st = State()
-        a = dds.make_adsr(it, st, 'Decay', total, index, rolled=None)
+        a = dds.make_adsr(it, st, 'Decay', total, index, rolled=None, **kw)
         inner = it.sym_value(st, adt_ty(D.SL if vname == 'Sustain' else D.TP), 'arg')
-        col.run('Adsr::set_input|%s' % vname, it, st, D.ADSR + '::set_input', a, [make_enum(facts, 'synth_utils::adsr::Input', vname, [inner])])
+        col.run('Adsr::set_input|%s' % vname, it, st, D.ADSR + '::set_input', a, [make_enum(facts, 'synth_utils::adsr::Input', vname, [inner])], post_inv=inv)
 
 
 def lfo_entries(col, facts):
@@ -212,6 +221,15 @@ def le_const(ctx, t, K, depth=0):
         if a[0] == 'f2i':
             # trunc(x) clamped into [tlo, thi]: <= K when x <= K (K >= tlo)
             return le_const(ctx, a[1], K, depth + 1)
+        if a[0] == 'idiv':
+            # floor(x / c) <= K  <=>  x < (K+1)*c  for a positive constant divisor
+            cv = a[2].const_value() if isinstance(a[2], Poly) else None
+            if cv is not None and cv > 0 and ctx.rng(a[1])[0] >= 0:
+                return le_const(ctx, a[1], (K + 1) * cv - 1, depth + 1) if ctx._int_valued(a[1]) else le_const(ctx, a[1], K * cv, depth + 1)
+        if a[0] == 'mod':
+            cv = a[2].const_value() if isinstance(a[2], Poly) else None
+            if cv is not None and cv > 0 and cv - 1 <= K and ctx.rng(a[1])[0] >= 0:
+                return True
     # clear positive denominators
     dens = set()
     for m in t.t:
